@@ -330,13 +330,12 @@ def mutate(rng, tree, touched, foreign):
 
 def comments_of(root, stmt):
     import tokenize
+    import io
     bl = stmt.f.bloc
-    lines = root.src.split('\n')[bl.ln:bl.end_ln + 1]
-    if not lines:
+    try:        # the comments on the statement's lines, tokens of the WHOLE source (the lines of one statement alone need not tokenize: `); b = {k: (` when the next statement shares its last line)
+        return [t.string for t in tokenize.generate_tokens(io.StringIO(root.src).readline) if t.type == tokenize.COMMENT and bl.ln <= t.start[0] - 1 <= bl.end_ln]
+    except (tokenize.TokenError, IndentationError, SyntaxError):
         return []
-    ind = len(lines[0]) - len(lines[0].lstrip())
-    text = '\n'.join(l[ind:] if l[:ind].strip() == '' else l for l in lines)
-    return [t[1] for t in (tokens(text) or []) if t[0] == tokenize.COMMENT]
 
 
 def valid_tree(a):
